@@ -57,7 +57,9 @@ def _binary(name, dx, dy, op):
     @spec(name, "B")
     def s(ch, T, name=name, dx=dx, dy=dy, op=op):
         shs = T.shapes()
-        sa, sb = ch.choose("shapes", A.broadcast_pairs(shs))
+        # + zero-length dimensions broadcast against size-1 dimensions
+        empties = [((1, 3), (0, 3)), ((0, 3), (1, 3)), ((3, 1), (3, 0)), ((1,), (0,)), ((0,), ()), ((2, 1, 1), (0, 3)), ((1, 1), (0, 0))]
+        sa, sb = ch.choose("shapes", A.broadcast_pairs(shs) + empties)
         ka = ch.choose("kind_x", T.kinds_for(sa))
         kb = ch.choose("kind_y", T.kinds_for(sb))
         forms = ["np.%s(x, y)" % name] + (["x %s y" % op] if op else [])
